@@ -96,6 +96,12 @@ long long f0(int x, int y) {
   return v + r2 + h1(y, x, 1) + h2(x, 2, y) + via(y, x);
 }
 """, ["ext_a", "h1", "h2", "tab", "via", "f0"], [[0, 0], [1, 1], [2, 5], [7, -3], [-100, 41]], ["ext_a"]),
+    # calls between ppci-compiled functions with 5..12 integer parameters (odd and even numbers of memory arguments),
+    # ppci -> gcc calls with 7 / 9 / 12 arguments (external stubs log them), gcc -> ppci with 9 (the driver calls f0)
+    "manyint": ('extern int ext_n7(int, int, int, int, int, int, int);\nextern int ext_n9(int, int, int, int, int, int, int, int, int);\nextern int ext_n12(int, int, int, int, int, int, int, int, int, int, int, int);\nlong long h5(int a1, int a2, int a3, int a4, int a5) { return (long long)(a1 * 3 + a2 * 5 + a3 * 7 + a4 * 9 + a5 * 11); }\nlong long h6(int a1, int a2, int a3, int a4, int a5, int a6) { return (long long)(a1 * 3 + a2 * 5 + a3 * 7 + a4 * 9 + a5 * 11 + a6 * 13); }\nlong long h7(int a1, int a2, int a3, int a4, int a5, int a6, int a7) { return (long long)(a1 * 3 + a2 * 5 + a3 * 7 + a4 * 9 + a5 * 11 + a6 * 13 + a7 * 15) + ext_n7(a7, a6, a5, a4, a3, a2, a1); }\nlong long h8(int a1, int a2, int a3, int a4, int a5, int a6, int a7, int a8) { return (long long)(a1 * 3 + a2 * 5 + a3 * 7 + a4 * 9 + a5 * 11 + a6 * 13 + a7 * 15 + a8 * 17); }\nlong long h9(int a1, int a2, int a3, int a4, int a5, int a6, int a7, int a8, int a9) { return (long long)(a1 * 3 + a2 * 5 + a3 * 7 + a4 * 9 + a5 * 11 + a6 * 13 + a7 * 15 + a8 * 17 + a9 * 19) + ext_n9(a9, a8, a7, a6, a5, a4, a3, a2, a1); }\nlong long h10(int a1, int a2, int a3, int a4, int a5, int a6, int a7, int a8, int a9, int a10) { return (long long)(a1 * 3 + a2 * 5 + a3 * 7 + a4 * 9 + a5 * 11 + a6 * 13 + a7 * 15 + a8 * 17 + a9 * 19 + a10 * 21); }\nlong long h11(int a1, int a2, int a3, int a4, int a5, int a6, int a7, int a8, int a9, int a10, int a11) { return (long long)(a1 * 3 + a2 * 5 + a3 * 7 + a4 * 9 + a5 * 11 + a6 * 13 + a7 * 15 + a8 * 17 + a9 * 19 + a10 * 21 + a11 * 23); }\nlong long h12(int a1, int a2, int a3, int a4, int a5, int a6, int a7, int a8, int a9, int a10, int a11, int a12) { return (long long)(a1 * 3 + a2 * 5 + a3 * 7 + a4 * 9 + a5 * 11 + a6 * 13 + a7 * 15 + a8 * 17 + a9 * 19 + a10 * 21 + a11 * 23 + a12 * 25) + ext_n12(a12, a11, a10, a9, a8, a7, a6, a5, a4, a3, a2, a1); }\nlong long f0(int a1, int a2, int a3, int a4, int a5, int a6, int a7, int a8, int a9) {\n  long long r = 0;\n  r = r * 3 + h5(a1, a2, a3, a4, a5);\n  r = r * 3 + h6(a2, a3, a4, a5, a6, a7);\n  r = r * 3 + h7(a1 + 101, a2 + 102, a3 + 103, a4 + 104, a5 + 105, a6 + 106, a7 + 107);\n  r = r * 3 + h8(a9, a8, a7, a6, a5, a4, a3, a2);\n  r = r * 3 + h9(a1 + 201, a2 + 202, a3 + 203, a4 + 204, a5 + 205, a6 + 206, a7 + 207, a8 + 208, a9 + 209);\n  r = r * 3 + h10(a1, a3, a5, a7, a9, a2, a4, a6, a8, 310);\n  r = r * 3 + h11(a1 + 401, a2 + 402, a3 + 403, a4 + 404, a5 + 405, a6 + 406, a7 + 407, a8 + 408, a9 + 409, 410, 411);\n  r = r * 3 + h12(a9, a8, a7, a6, a5, a4, a3, a2, a1, 510, 511, 512);\n  return r + a7 * 1000003 + a8 * 1000033 + a9 * 1000037;\n}\n', ['ext_n7', 'ext_n9', 'ext_n12', 'h5', 'h6', 'h7', 'h8', 'h9', 'h10', 'h11', 'h12', 'f0'], [[1, 2, 3, 4, 5, 6, 7, 8, 9], [0, 0, 0, 0, 0, 0, 0, 0, 0], [-1, 20, -300, 4000, -50000, 600000, -7, 88, -999],
+                      [11, 22, 33, 44, 55, 66, 77, 88, 99]], ["ext_n7", "ext_n9", "ext_n12"]),
+    # two / three mutually dependent loop-carried variables: the phi copies at the latch form a parallel assignment
+    "crossloop": ('\nint g1 = 0;\nint g2 = 0;\nlong long f0(int n, int s) {\n  int a = s; int b = s + 1; int c = 3; int t; int i; int k = n & 7;\n  int x = 1; int y = 2; int z = 3; int w;\n  int p = 0; int q = 1;\n  for (i = 0; i < k; i = i + 1) { t = a; a = b + 1; b = t * 2; }           /* b from the old a */\n  for (i = 0; i < k; i = i + 1) { t = x; x = y; y = t; }                       /* swap */\n  for (i = 0; i < k + 1; i = i + 1) { w = x; x = y; y = z; z = w + i; }        /* rotate three */\n  for (i = 0; i < k + 2; i = i + 1) { t = p + q; p = q; q = t; }               /* fibonacci */\n  i = k;\n  while (i > 0) { t = c; c = a - c; a = t + i; i = i - 1; }\n  g1 = a * 7 + b; g2 = x * 100 + y * 10 + z;\n  return (long long)a * 1000003 + b * 10007 + c * 101 + x * 13 + y * 17 + z * 19 + p * 23 + q * 29;\n}\n', ["g1", "g2", "f0"], [[0, 0], [1, 1], [5, 3], [7, -4], [3, 100], [6, 7]], []),
 }
 
 
